@@ -40,6 +40,8 @@ class World:
             self.enums.append(E.EEnum(en['name'], literals=list(en['literals'])))
         self.classes = {}
         self.feats = []            # global feature list: (class name, fdesc, feature object)
+        late_names = set(case.get('late') or [])
+        self._late = []
         for c in mm['classes']:
             self.classes[c['name']] = E.EClass(c['name'], abstract=c.get('abstract', False))
         for c in mm['classes']:
@@ -63,7 +65,14 @@ class World:
                     f = E.EReference(fd['name'], self.classes[t], upper=-1 if fd['many'] else 1,
                                      ordered=fd.get('ordered', True), unique=fd.get('unique', True),
                                      containment=fd.get('containment', False))
-                self.classes[c['name']].eStructuralFeatures.append(f)
+                if fd['name'] in late_names:
+                    # a LATE feature (case['late']): created now, attached to its class only right before the first
+                    # call that addresses it (World._grow) - i.e. after the classes were instantiated and used.
+                    # The model runs the same history on the FINAL metamodel from the start: the metamodel may grow
+                    # at run time without the objects that already exist behaving differently.
+                    self._late.append((c['name'], fd, f))
+                else:
+                    self.classes[c['name']].eStructuralFeatures.append(f)
                 byname[(c['name'], fd['name'])] = f
                 self.feats.append((c['name'], fd, f))
         for c in mm['classes']:
@@ -98,6 +107,15 @@ class World:
             for i, r in enumerate(self.res):
                 ob = EObserver(notifyChanged=self._mk_obs(('r', i)))
                 r.listeners.append(ob)
+        if self._late:
+            # the classes are USED before they grow: every reflective view is asked once on every object
+            for o in self.objs:
+                ec = o.eClass
+                list(o.eContents), list(o.eAllContents()), dir(o)
+                ec.eAllReferences(), ec.eAllAttributes(), ec.eAllStructuralFeatures(), ec.eAllSuperTypes()
+                ec.eAllOperations()
+                for f in ec.eAllStructuralFeatures():
+                    ec.findEStructuralFeature(f.name)
 
     def _init_static(self, case, mm, observers, E, ResourceSet, URI, EObserver):
         from harness import kstatic
@@ -187,7 +205,17 @@ class World:
         return sorted(self.fid[id(f)] for f in fs)
 
     # ---- operations ----
+    def _grow(self):
+        for cn, fd, f in self._late:
+            self.classes[cn].eStructuralFeatures.append(f)
+        self._late = []
+
     def apply(self, op):
+        if getattr(self, '_late', None) and (
+                op[0] == 'delete'        # delete() writes every reference slot of the object (eIsSet turns true)
+                or (op[0] not in ('rappend', 'rremove', 'rextend') and len(op) > 2 and isinstance(op[2], int)
+                    and any(self.feats[op[2]][2] is f for _, _, f in self._late))):
+            self._grow()
         try:
             return (0, self._apply(op))
         except Exception as e:   # noqa
@@ -312,6 +340,16 @@ class World:
                     except Exception:  # noqa
                         bad_index.append(fi)
             od['bad_index'] = bad_index
+            for cn, fd, f in getattr(self, '_late', None) or ():
+                # not attached yet: reads as never set (references only: None / empty)
+                lc = self.classes[cn]
+                if o.eClass is lc or lc in o.eClass.eAllSuperTypes():
+                    fi = self.fid[id(f)]
+                    od['feats'][fi] = [] if fd['many'] else [self.tok(None)]
+                    od['isset'][fi] = 0
+            if getattr(self, '_late', None):
+                od['feats'] = dict(sorted(od['feats'].items()))
+                od['isset'] = dict(sorted(od['isset'].items()))
             c = o.eContainer()
             od['container'] = self.oid.get(id(c), NONE_TOK if c is None else -2)
             cf = o.eContainmentFeature()
